@@ -5,6 +5,7 @@ import (
 	"strings"
 
 	"github.com/makiuchi-d/gozxing"
+	"github.com/makiuchi-d/gozxing/verifhook"
 )
 
 // DataMatrix ECC 200 data encoder following the algorithm described in ISO/IEC 16022:200(E) in annex S.
@@ -120,6 +121,7 @@ func EncodeHighLevel(msg string, shape SymbolShapeHint, minSize, maxSize *gozxin
 	encodingMode := HighLevelEncoder_ASCII_ENCODATION //Default mode
 	for context.HasMoreCharacters() {
 		encoders[encodingMode].encode(context)
+		verifhook.DMStep(context.pos, encodingMode, context.GetCodewordCount())
 		if context.GetNewEncoding() >= 0 {
 			encodingMode = context.GetNewEncoding()
 			context.ResetEncoderSignal()
